@@ -2,7 +2,7 @@
 
 from hypothesis import strategies as st
 
-from vf import conv, core, gen_gaf, gen_graph, models
+from vf import idx, conv, core, gen_gaf, gen_graph, models
 
 ID = "C01"
 LEVEL = "exploration"
@@ -134,4 +134,50 @@ def enumerations_small(tier, shard, nshards):
            "segments, inversion, hairpin, tandem duplication, deletion) x boundary offsets, both directions", gen(), True)
 
 
-enumerations = enumerations_small
+def enumerations(tier, shard, nshards):
+    yield from enumerations_small(tier, shard, nshards)
+
+    def long_reference():
+        # a reference contig cut into 90 segments (interval searches bisect over more than a handful of segments): walks of
+        # 1-6 consecutive reference segments and walks through the three alleles, every start offset inside the first segment
+        # and end offset inside the last one; both directions (the stable form of an all-reference walk is the bare contig)
+        g, case = idx.big_file_case(17, 1, False, n_ref=90)
+        nodes = g["nodes"]
+        lm = models.LinkModel(g["links"])
+        refs = ["s%d" % i for i in range(1, 91)]
+        recs = []
+        k = 0
+        for a in range(0, 90, 1):
+            for span in (1, 2, 3, 6):
+                ids = refs[a:a + span]
+                if len(ids) < span:
+                    continue
+                for rev in (False, True):
+                    steps = [("<", n) for n in reversed(ids)] if rev else [(">", n) for n in ids]
+                    if not lm.is_walk(steps):
+                        continue
+                    lens = [nodes[n]["ln"] for _, n in steps]
+                    total = sum(lens)
+                    for ps in sorted({0, lens[0] - 1, lens[0] // 2}):
+                        for pe in sorted({total, total - lens[-1] + 1}):
+                            if not ps < pe:
+                                continue
+                            k += 1
+                            n_ = pe - ps
+                            recs.append({"name": "L%d" % k, "qlen": n_ + 2, "qs": 1, "qe": n_ + 1, "strand": "+", "steps": [list(x) for x in steps],
+                                         "plen": total, "ps": ps, "pe": pe, "matches": n_, "block": n_, "mapq": 60, "cg": "%d=" % n_,
+                                         "tags": [], "cg_pos": 0})
+        gfa = gen_graph.gfa_text(g, with_seq=True, order_seed=7)
+        chunk = 400
+        j = 0
+        for direction in ("u2s", "s2u"):
+            for i in range(0, len(recs), chunk):
+                j += 1
+                if j % nshards != shard:
+                    continue
+                part = recs[i:i + chunk]
+                lines = [gen_gaf.record_line(r) for r in part] if direction == "u2s" else [conv.stable_line(nodes, r) for r in part]
+                yield {"gfa": gfa, "gaf": lines, "dir": direction, "via": "api"}
+
+    yield ("a reference contig of 90 segments: walks of 1, 2, 3 and 6 consecutive segments in both orientations x boundary offsets, "
+           "both directions", long_reference(), True)
